@@ -7,7 +7,7 @@ git pull -q --no-edit /tmp/vf/$N/verif 2>&1 | grep -v "^hint" | tail -5
 for f in $(git diff --name-only --diff-filter=U); do
   case $f in evidence/*|MANIFEST.json) git checkout --theirs -- $f; git add $f;; *) echo "CONFLICT NEEDS HAND MERGE: $f";; esac
 done
-if [ -n "$(git diff --name-only --diff-filter=U)" ]; then exit 1; fi
+if [ -n "$(git diff --name-only --diff-filter=U)" ]; then echo "MERGE STOPPED: resolve by hand, then commit (do NOT delete the clone yet)"; exit 1; fi
 git commit -qm "Merge /tmp/vf/$N/verif" 2>/dev/null
 python3 tools/gen_manifest.py > /dev/null
 for p in "$@"; do python3 verif.py $p | tail -1; done
